@@ -131,6 +131,12 @@ def run(ctx):
         r3.check(any(c.body is dr and c.name.endswith("::remove") for c in calls), "drop-removes", "Drop for Client removes the entry", "Drop for Client no longer removes the map entry")
         rl = F.body(RELEASE)
         for b_, nm in ((dr, "Drop"), (rl, "release")):
+            if b_:
+                rmv_ = [c.block for c in calls if c.body is b_ and c.name.endswith("::remove")]
+                rets_ = [bb for bb, blk in enumerate(b_.blocks) if blk["term"]["k"] == "return"]
+                wit_ = b_.uncrossed_path([0], rets_, blocks=rmv_)
+                r3.check(bool(rmv_) and wit_ is None, "unconditional-remove:" + nm, "%s removes the entry on every path" % nm,
+                         "%s can return without removing the client's entry (a condition guards the removal): after the transaction ends the client's key still maps to the server it used" % nm, "", wit_ and b_.describe_path(wit_))
             if not b_:
                 continue
             rmv = [c for c in calls if c.body is b_ and c.name.endswith("::remove")]
